@@ -59,7 +59,43 @@ def run(ctx):
         rest = [s for s in scns if s.get("src") != "rot"]
         rot.sort(key=lambda s: hashlib.sha1(("%d|" % ctx.seed + json.dumps(s["apps"], sort_keys=True)).encode()).hexdigest())
         ctx.extra["exhaustive_scenarios_generated"] = len(rot)
-        return rest + rot[:cap]
+        return rest + rot[:cap] + shared_path(rest + rot[:cap])
+
+    def shared_path(scns):
+        """derived family: a path whose methods come from two registrations -- a route of the parent exactly at a mount prefix,
+        written before the mount, with a method the mounted application's `/` route does not use (the build accepts it;
+        the document must list the operations of both)"""
+        out = []
+        for s in scns:
+            if len(out) >= (150 if q else 3000):
+                break
+            apps = s["apps"]
+            for a in apps:
+                for k, it in enumerate(a["items"]):
+                    if it["t"] != "mount" or any(sg["k"] == "P" for sg in it["segs"]):
+                        continue
+                    child = apps[it["app"] - 1]
+                    if child["fangs"]:
+                        continue     # fangs of an application apply to its mount node, hence to a parent route there too: not the text's business
+                    used = set(m for c in child["items"] if c["t"] == "route" and c["segs"] == [] for m in c["methods"])
+                    if any(o["t"] == "route" and o["segs"] == it["segs"] for o in a["items"]):
+                        continue
+                    free = [m for m in ("GET", "PUT", "POST") if m not in used]
+                    if not free or not used:
+                        continue
+                    d = json.loads(json.dumps(s))
+                    maxh = max([i2["h"] for a2 in d["apps"] for i2 in a2["items"]] + [0])
+                    tgt = d["apps"][apps.index(a)]["items"]
+                    tgt.insert(k, {"t": "route", "app": 0, "segs": it["segs"], "methods": [free[0]], "local": [], "h": maxh + 1,
+                                   "sig": {"pv": "p0", "ex": "none", "rt": "text"}})
+                    d["src"] = "shared-path"
+                    out.append(d)
+                    break
+                else:
+                    continue
+                break
+        ctx.extra["shared_path_scenarios"] = len(out)
+        return out
 
     obs, verdicts = standard_pipeline(ctx, sub="openapi", mc=mc, gen=gen, trace=TRACE, random_n=400 if q else 15000, nontrivial=nontrivial,
                                       dedupe_key=lambda s: json.dumps(s["apps"], sort_keys=True), post_gen=sample, chunk=3000, jobs=12)
